@@ -586,6 +586,9 @@ func obsAssignStatements(s obsSpell, thorough bool) []obsAssign {
 		{"from-other-table", "update t1 set %T = %V from t2 where t1.id1 = t2.id2 returning t1.id1", bare},
 		{"two-tables", "update t1, t2 set t1.%T = %V, t2.p2 = 'n' where t1.id1 = t2.id2", func(t string) []string { return []string{"t1." + t} }},
 		{"join", "update t1 join t2 on t1.id1 = t2.id2 set t1.%T = %V where t2.p2 = 'x'", func(t string) []string { return []string{"t1." + t} }},
+		// the second assignment goes to the other table under an alias written with a capital letter; its
+		// column shares its name with a protected column of t1 and is not protected itself
+		{"join-capital-alias-shared-name", "update t1 join t2 as B on t1.id1 = B.id2 set t1.%T = %V, B.d = 'n' where B.p2 = 'x'", func(t string) []string { return []string{"t1." + t} }},
 		{"same-target-twice", "update t1 set %T = %V, %T = 'again' where id1 = 1", bare},
 	}
 	for _, u := range upds {
